@@ -77,10 +77,15 @@ class StripCommentsFilter:
                 # a valid SQL (see #425).
                 if prev_ is not None and not prev_.match(T.Punctuation, '('):
                     tlist.tokens.insert(tidx, _get_insert_token(token))
-                elif (prev_ is None and next_ is not None
-                        and not next_.is_whitespace):
-                    _separate_group(token)
-                tlist.tokens.remove(token)
+                    tlist.tokens.remove(token)
+                else:
+                    tlist.tokens.remove(token)
+                    if (prev_ is None and next_ is not None
+                            and not next_.is_whitespace):
+                        _separate_group(token)
+                    # Nothing took the comment's place: the search goes on
+                    # at its index (the next token has moved there).
+                    tidx -= 1
             else:
                 tlist.tokens[tidx] = _get_insert_token(token)
 
